@@ -3,7 +3,8 @@
    located_at = the same without nchar; completed e loc = e with every missing field taken from loc.
    process_fills / location_keys / match_keys are regenerated from textx/metamodel.py and
    textx/model.py on every run. *)
-From TxV Require Import Core.Base Model.ErrLoc Gen.SrcLoc Proofs.ErrLocProofs Proofs.ErrLocSrcProofs.
+From TxV Require Import Core.Base Model.PegSyntax Model.Peg Model.Build.
+From TxV Require Import Model.ErrLoc Gen.SrcLoc Proofs.ErrLocProofs Proofs.ErrLocSrcProofs Model.ErrLocLoad Proofs.ErrLocLoadProofs.
 
 (* object processor raising a TextXError (through textxerror_wrap or not): every field it supplied is
    kept, every other one is the location of the processed object, including nchar *)
@@ -67,3 +68,69 @@ Example C33_nonvacuous :
   = Fails {| r_file := Some [98]%N; r_line := Some 3; r_col := Some 4; r_nchar := None |}.
 Proof. vm_compute. repeat split; try reflexivity. repeat constructor. Qed.
 Print Assumptions C33_nonvacuous.
+
+(* ---- composed with the object builder (Model/Build.v, C06_object_span): the span is no longer an input.
+   For EVERY grammar table, metamodel table, group oracle, option setting and file list: the object that
+   process_node builds from a common-rule node (NT n kids) of model m's parse tree is processed with the
+   location of that NODE: line/col of tpos (start of its first terminal), nchar = tend - tpos. *)
+Theorem C33_built_object_error : forall g mm grp auto use_grp fs m n kids top v top' wrapped err,
+  pnode g mm (s_text (file_at fs m)) grp auto use_grp (NT n kids) top = BOk (v, top') ->
+  (exists c a, info mm n = IRule RCommon c a) ->
+  in_text fs m (tpos (NT n kids)) ->
+  process_built_node process_fills location_keys g mm grp auto use_grp fs m (NT n kids) top wrapped (RaisesTx err)
+  = Some (Fails (completed err (obj_location fs m (tpos (NT n kids)) (tend (NT n kids))))).
+Proof. exact built_object_processor_error. Qed.
+Print Assumptions C33_built_object_error.
+
+Theorem C33_built_object_wrapped_exception : forall g mm grp auto use_grp fs m n kids top v top',
+  pnode g mm (s_text (file_at fs m)) grp auto use_grp (NT n kids) top = BOk (v, top') ->
+  (exists c a, info mm n = IRule RCommon c a) ->
+  in_text fs m (tpos (NT n kids)) ->
+  process_built_node process_fills location_keys g mm grp auto use_grp fs m (NT n kids) top true RaisesOther
+  = Some (Fails (obj_location fs m (tpos (NT n kids)) (tend (NT n kids)))).
+Proof. exact built_object_wrapped_exception. Qed.
+Print Assumptions C33_built_object_wrapped_exception.
+
+(* for a well-formed node nchar is the (positive) length from its first to its last terminal *)
+Theorem C33_built_object_nchar : forall fs m t, wf_tree t = true ->
+  exists k, r_nchar (obj_location fs m (tpos t) (tend t)) = Some k /\ 0 < k /\ tpos t + k = tend t.
+Proof. exact built_object_nchar_positive. Qed.
+Print Assumptions C33_built_object_nchar.
+
+(* obj_location is C06's get_location (Model/Build.v) plus the file name *)
+Theorem C33_location_is_C06_location : forall fs m p e, in_text fs m p ->
+  obj_location fs m p e =
+  let '(lc, n) := Build.get_location (s_text (file_at fs m)) p e in
+  {| r_file := s_name (file_at fs m); r_line := Some (fst lc); r_col := Some (snd lc); r_nchar := Some n |}.
+Proof. exact obj_location_is_build_location. Qed.
+Print Assumptions C33_location_is_C06_location.
+
+(* the location is a function of the OBJECT (its model and its whole span), not of its start offset:
+   two objects starting at the same offset with different ends (a parent and its first child) never
+   get the same error, nor do objects at equal offsets of two differently named files.  Any scheme that
+   keys locations by the start offset alone contradicts these. *)
+Theorem C33_location_distinguishes_ends : forall fs m pos e1 e2 wrapped, in_text fs m pos ->
+  pos <= e1 -> pos <= e2 -> e1 <> e2 ->
+  obj_dispatch process_fills location_keys fs m pos e1 wrapped (RaisesTx no_loc)
+  <> obj_dispatch process_fills location_keys fs m pos e2 wrapped (RaisesTx no_loc).
+Proof. exact location_distinguishes_ends. Qed.
+Print Assumptions C33_location_distinguishes_ends.
+
+Theorem C33_location_distinguishes_models : forall fs m1 m2 pos e wrapped, in_text fs m1 pos -> in_text fs m2 pos ->
+  s_name (file_at fs m1) <> s_name (file_at fs m2) ->
+  obj_dispatch process_fills location_keys fs m1 pos e wrapped (RaisesTx no_loc)
+  <> obj_dispatch process_fills location_keys fs m2 pos e wrapped (RaisesTx no_loc).
+Proof. exact location_distinguishes_models. Qed.
+Print Assumptions C33_location_distinguishes_models.
+
+(* a common-rule node with terminals at 2..5 and 7..8 of the imported file "ab\ncdefgh" *)
+Example C33_composed_nonvacuous :
+  let fs := [ {| s_name := None; s_text := [] |};
+              {| s_name := Some [98]%N; s_text := [97;98;10;99;100;101;102;103;104]%N |} ] in
+  (exists v top', pnode (mkGrammar [] 0 None) [IRule RCommon [65]%N []] (s_text (file_at fs 1)) (fun _ _ => None) true false
+                   (NT 0 [T 1 2 3 false; T 1 7 1 false]) None = BOk (v, top')) /\
+  process_built_node process_fills location_keys (mkGrammar [] 0 None) [IRule RCommon [65]%N []] (fun _ _ => None) true false fs 1
+    (NT 0 [T 1 2 3 false; T 1 7 1 false]) None false (RaisesTx no_loc)
+  = Some (Fails {| r_file := Some [98]%N; r_line := Some 1; r_col := Some 3; r_nchar := Some 6 |}).
+Proof. split; [eexists; eexists; vm_compute; reflexivity | vm_compute; reflexivity]. Qed.
+Print Assumptions C33_composed_nonvacuous.
